@@ -66,6 +66,15 @@ def cases(tier, seed):
         out.append({"kind": "long", "histories": hs, "seed": seed})
     for j in range(0, 48 if tier == "quick" else 2400, 12):
         out.append({"kind": "dynamic-churn", "from": j, "count": 12, "seed": seed})
+    # the query is about the very text the priming class has just looked at: every pair of classes that spell the same structure
+    # (the CIDAR / original-MoClo twins over the isoschizomers BbsI / BpiI ...) and a sample of the others
+    twins = [p for p in other if gen.class_by_name(p[0]).structure() == gen.class_by_name(p[1]).structure()]
+    rest = [p for p in other if p not in twins]
+    rng2 = gen.rng_for(seed, PROP, "same-text")
+    rng2.shuffle(rest)
+    st_pairs = twins + rest[: 120 if tier == "quick" else 3000]
+    for j in range(0, len(st_pairs), 25):
+        out.append({"kind": "same-text", "pairs": st_pairs[j:j + 25], "seed": seed})
     for j in range(0, 40 if tier == "quick" else 2000, 10):
         out.append({"kind": "dynamic-cutter", "from": j, "count": 10, "seed": seed})
     ndyn = 60 if tier == "quick" else 4000
@@ -245,6 +254,22 @@ def execute(mat, ctx):
         # (probe texts are produced inside a child as well: the worker itself never calls structure() or validates)
         ctx.sample({"kind": "pair", "history": [mat["pairs"][0][0]], "query": mat["pairs"][0][1],
                     "probes": probe_texts(seed, gen.class_by_name(mat["pairs"][0][1]))[:2]}, cap=1)
+    elif kind == "same-text":
+        for a, b in mat["pairs"]:
+            A, B = gen.class_by_name(a), gen.class_by_name(b)
+            ta = probe_texts(seed, A)
+            base = in_child(lambda: answer(seed, B, ta))
+            def alternate():
+                out = []
+                for t in ta:
+                    answer(seed, A, [t])                 # the primer looks at the text ...
+                    out.extend(answer(seed, B, [t]))     # ... and the query is about that very text, next
+                return {"answers": out, "stale": stale(B)}
+
+            got = in_child(alternate)
+            ctx.count("c06_same_text_pairs")
+            judge(ctx, seed, [a], b, got, base, extra="queried-about-the-text-the-primer-just-saw")
+        ctx.sample({"kind": kind, "pair": mat["pairs"][0]}, cap=1)
     elif kind == "long":
         for h in mat["histories"]:
             prim, q = h[:-1], h[-1]
